@@ -165,6 +165,9 @@ def scenarios(ctx):
                        reconnects=[(False, 0, 4), (True, 0, 4)], pub_qos=(1, 2) if q else (0, 1, 2),
                        budgets=dict(pub=2 if q else 3, ack=2 if q else 4, tick=1, lose=2 if q else 3, rebuild=2 if q else 3,
                                     connect=2 if q else 3, connack=2 if q else 3, dack=0 if q else 1)))
+    out.append(Std('pubsub-wrap', profile='pubsub', init=CONNECTED_P + (('setwin', 0, 3),), connects=[(False, 0, 4)],
+                   reconnects=[(False, 0, 4)], pub_qos=(1, 2),
+                   budgets=dict(pub=3, ack=1, setid=1, lose=1, rebuild=1, connect=1, connack=1)))
     out.append(Std('pub-w1-queue', profile='pub', init=CONNECTED_P, connects=[(False, 0, 4)],
                    reconnects=[(True, 0, 4), (False, 0, 4)], pub_qos=(0, 1, 2) if not q else (0, 1),
                    budgets=dict(pub=4, ack=0 if q else 1, lose=1, rebuild=1, connect=1, connack=1, tick=0 if q else 1)))
